@@ -82,7 +82,8 @@ def make(latA, lonA, disp, tc, first_newer, alt12=0x5A3, hdr=0):
     e1 = C.encode(latB, lonB, 1)
     aa = [0x406B90, 0xABCDEF, 0x000001][hdr % 3]
     m0 = F.es(C.me_airborne(tc, alt12, 0, e0["yz"], e0["xz"], ss=hdr % 4, saf=hdr % 2, t=(hdr // 2) % 2), aa, ca_for(17 + hdr % 2, hdr // 2), 17 + hdr % 2)
-    m1 = F.es(C.me_airborne(partner_tc(tc, hdr % 4), alt12, 1, e1["yz"], e1["xz"], ss=(hdr + 1) % 4, saf=0, t=hdr % 2), aa, ca_for(17 + hdr % 2, hdr // 2), 17 + hdr % 2)
+    df1 = 17 + (hdr // 2) % 2        # the formats of the two frames rotate independently (DF17 squitter + DF18 rebroadcast)
+    m1 = F.es(C.me_airborne(partner_tc(tc, hdr % 4), alt12, 1, e1["yz"], e1["xz"], ss=(hdr + 1) % 4, saf=0, t=hdr % 2), aa, ca_for(df1, hdr // 4), df1)
     return m0, m1, e0, e1
 
 
